@@ -240,6 +240,7 @@ fn check_outcome(r: &Result<Cfg, crate::config::errors::ConfigLoadError>, vals: 
 // @bounds 2 keys x 3 sources (presence and u8 value arbitrary); profiles {dev, prd, p.q}; environment probe variables PROFILE, K0, PROFILES_DIR, PROFILE__LABEL, PROFILER__ON; configuration directory relative ("cf") or absolute ("/a")
 // @functions ConfigLoader::new, ConfigLoader::profile, ConfigLoader::configuration_dir, ConfigLoader::load
 // @timeout 1800
+// @solver default
 #[kani::proof]
 #[kani::unwind(8)]
 #[kani::stub(std::fmt::format, fmt_stub)]
